@@ -3,3 +3,5 @@ import AM.Model.Nflog
 import AM.Props.C10
 import AM.Model.Suppress
 import AM.Props.Suppress
+import AM.Model.Registry
+import AM.Props.Registry
